@@ -5,8 +5,12 @@ import Qx.Proofs.C15
 Property theorems only (model: `Qx/Model/C15Ice.lean`, helpers: `Qx/Proofs/C15.lean`, priority constants regenerated from
 the C++ by `translators/ice_prio.py` into `Qx/Generated/IcePrio.lean`).
 
-Reading guide.  `d.unauthenticated` = STUN datagram whose MESSAGE-INTEGRITY status is not "valid under the key for its
-class": absent, computed with a wrong key, valid only under the session's other password, or truncated.
+Reading guide.  A STUN datagram is described by the integrity-relevant LAYOUT of its attribute list (`attrs`, wire order).
+`protectingMi attrs` is the specification's notion of the integrity attribute of the message (first MESSAGE-INTEGRITY, and only
+if no FINGERPRINT precedes it).  `d.unauthenticated` = that attribute is missing (none at all, or only behind a FINGERPRINT),
+computed with a wrong key, valid only under the session's other password, or truncated.  The model accepts a message through
+TWO walks transcribed as coded (`prescan` in handleDatagram, `decodeWalk` in QXmppStunMessage::decode); the safety theorems are
+about their conjunction.
 `NoEffect s d` = the connectivity view (pair states, nominated flags, remote candidates, selected pair, connected) is
 unchanged and neither a Binding response, nor a connectivity check, nor `connected()` is emitted.
 
@@ -23,8 +27,8 @@ def NoEffect (s : St) (d : Datagram) : Prop :=
 
 /-! ## Safety -/
 
-/-- **Unauthenticated traffic has no effect — for EVERY state and EVERY unauthenticated datagram** (no integrity attribute,
-wrong key, the session's other password, truncated attribute; any class, method, source, user name, role attribute,
+/-- **Unauthenticated traffic has no effect — for EVERY state and EVERY unauthenticated datagram** (no integrity attribute, one
+that sits behind a FINGERPRINT, wrong key, the session's other password, truncated attribute; any layout, class, method, source, user name, role attribute,
 USE-CANDIDATE, transaction id — guessed right or not): the component state is returned literally unchanged, hence the
 connectivity view is, and nothing is answered. -/
 theorem unauthenticated_traffic_no_effect (s : St) (d : Datagram) (hun : d.unauthenticated = true) :
@@ -32,12 +36,63 @@ theorem unauthenticated_traffic_no_effect (s : St) (d : Datagram) (hun : d.unaut
   have h := react_unauthenticated s d hun
   refine ⟨⟨by rw [h.1], ?_⟩, h.1⟩
   intro o ho
-  rcases h.2 o ho with h1 | h1 <;> rw [h1] <;> decide
+  have h1 := h.2 o ho
+  cases o <;> simp_all [isIntegrityWarning, isBindingResponse, isCheckSent]
 
-/-- the only thing the component may do with such a datagram is log one of the two integrity warnings -/
+/-- the only thing the component may do with such a datagram is log a warning -/
 theorem unauthenticated_datagram_dropped (s : St) (d : Datagram) (h : d.unauthenticated = true) :
-    (react s d).1 = s ∧ ∀ o ∈ (react s d).2, o = Out.warnBadMi ∨ o = Out.warnNoMi :=
-  react_unauthenticated s d h
+    (react s d).1 = s ∧ ∀ o ∈ (react s d).2, o = Out.warnBadMi ∨ o = Out.warnNoMi ∨ o = Out.warnBadFp ∨ o = Out.warnTruncAttr := by
+  have h1 := react_unauthenticated s d h
+  refine ⟨h1.1, ?_⟩
+  intro o ho
+  have h2 := h1.2 o ho
+  cases o <;> simp_all [isIntegrityWarning]
+
+/-- **A MESSAGE-INTEGRITY behind a FINGERPRINT counts as absent** — whatever its status (garbage, wrong key, even a correct HMAC)
+and whatever follows: the pre-scan stops at the FINGERPRINT, the message is dropped with the "missing MESSAGE-INTEGRITY"
+warning and the state is unchanged.  (`decode` alone would stop successfully at that FINGERPRINT, see
+`decode_alone_never_looks_behind_fingerprint`.) -/
+theorem mi_after_fingerprint_counts_as_absent (s : St) (src : Nat) (m : Stun) (pre rest : List Attr) (good : Bool)
+    (hpre : ∀ a ∈ pre, a = Attr.other) (hm : m.attrs = pre ++ Attr.fingerprint good :: rest) :
+    protectingMi m.attrs = none ∧ prescan m.attrs = false ∧
+    ({ src := src, kind := .stun m } : Datagram).unauthenticated = true ∧
+    (react s { src := src, kind := .stun m }).1 = s := by
+  have h1 : protectingMi m.attrs = none := by
+    rw [hm]
+    clear hm
+    induction pre with
+    | nil => rfl
+    | cons a p ih =>
+      have ha := hpre a (by simp)
+      subst ha
+      simpa [protectingMi] using ih (fun b hb => hpre b (by simp [hb]))
+  have h2 : prescan m.attrs = false := by
+    cases hp : prescan m.attrs with
+    | false => rfl
+    | true => rw [prescan_iff_protected, h1] at hp; simp at hp
+  have h3 : ({ src := src, kind := .stun m } : Datagram).unauthenticated = true := by
+    simp [Datagram.unauthenticated, h1]
+  exact ⟨h1, h2, h3, (react_unauthenticated s _ h3).1⟩
+
+/-- Why the pre-scan must stop at FINGERPRINT (documented so the two walks cannot drift apart silently): `decode` returns
+success at a good FINGERPRINT without having verified anything and never looks at what follows. -/
+theorem decode_alone_never_looks_behind_fingerprint (k : Bool) (pre rest : List Attr) (hpre : ∀ a ∈ pre, a = Attr.other) :
+    decodeWalk k false (pre ++ Attr.fingerprint true :: rest) = .ok := by
+  induction pre with
+  | nil => simp [decodeWalk]
+  | cons a p ih =>
+    have ha := hpre a (by simp)
+    subst ha
+    simpa [decodeWalk] using ih (fun b hb => hpre b (by simp [hb]))
+
+/-- **The conjunction of the two walks is sound:** whenever the pre-scan says "has MESSAGE-INTEGRITY" and `decode` succeeds,
+the message's protecting MESSAGE-INTEGRITY exists and was verified under the key for the message class. -/
+theorem accepted_means_verified (cls : Cls) (attrs : List Attr)
+    (h1 : prescan attrs = true) (h2 : decodeWalk (cls == .response || cls == .error) false attrs = .ok) :
+    protectingMi attrs = some (validFor cls) := by
+  obtain ⟨st, hp, hc⟩ := accept_implies_protected _ attrs h1 h2
+  rw [miCheck_ok, key_for_class] at hc
+  rw [hp, hc]
 
 /-- **Whole histories.**  A history that consists only of unauthenticated datagrams (any number, any mix) leaves every state
 `s` — in particular its connectivity view — exactly as it was. (Name kept from the time when this held only for datagrams that
@@ -57,19 +112,19 @@ theorem forged_traffic_erasable (s : St) (ops : List Op) :
   run_erase_unauthenticated ops s
 
 /-- **Only authenticated messages can matter:** if a STUN datagram changes the state or makes the component emit anything but
-an integrity warning, then its MESSAGE-INTEGRITY is the valid one for its class. -/
+an integrity warning, then its protecting MESSAGE-INTEGRITY exists and is the valid one for its class. -/
 theorem reaction_only_to_valid_mi (s : St) (src : Nat) (m : Stun)
     (h : (react s { src := src, kind := .stun m }).1 ≠ s ∨
          ∃ o ∈ (react s { src := src, kind := .stun m }).2, isIntegrityWarning o = false) :
-    m.mi = validFor m.cls := by
-  by_cases h1 : m.mi = validFor m.cls
+    protectingMi m.attrs = some (validFor m.cls) := by
+  by_cases h1 : protectingMi m.attrs = some (validFor m.cls)
   · exact h1
   exfalso
   have hf : ({ src := src, kind := .stun m } : Datagram).unauthenticated = true := by simp [Datagram.unauthenticated, h1]
   have h3 := react_unauthenticated s _ hf
   rcases h with h | ⟨o, ho, hne⟩
   · exact h h3.1
-  · rcases h3.2 o ho with h4 | h4 <;> rw [h4] at hne <;> exact absurd hne (by decide)
+  · rw [h3.2 o ho] at hne; exact absurd hne (by decide)
 
 /-- The witness that used to take the component over (request without MESSAGE-INTEGRITY + USE-CANDIDATE from an unknown
 address, then an integrity-less success response to the triggered check) now does nothing: not connected, no pair, no
@@ -77,8 +132,8 @@ candidate, application data has nowhere to go. -/
 theorem former_takeover_witness_is_inert :
     let ops : List Op :=
       [.setRemoteCreds,
-       .dgram { src := 8, kind := .stun { cls := .request, txid := 1000, mi := .absent, useCandidate := true, priority := 12345 } },
-       .dgram { src := 8, kind := .stun { cls := .response, txid := 0, mi := .absent } },
+       .dgram { src := 8, kind := .stun { cls := .request, txid := 1000, attrs := [], useCandidate := true, priority := 12345 } },
+       .dgram { src := 8, kind := .stun { cls := .response, txid := 0, attrs := [] } },
        .sendApp [1, 2, 3]]
     (run (init false) ops).1.connected = false ∧ (run (init false) ops).1.pairs = [] ∧
     (run (init false) ops).1.remoteCands = [] ∧ (run (init false) ops).2 = [.warnNoMi, .warnNoMi, .appNoRoute] := by
@@ -164,7 +219,7 @@ theorem honest_pair_connects_partial (aControlling : Bool) (component addrA addr
   have h2 : (addrB == addrA) = false := by simp [Ne.symm hne]
   cases aControlling <;>
     simp [honestNet, Net.deliver, Net.deliverRound, Net.opA, Net.opB, Net.emitA, Net.emitB, route, wire, run, step, init, addRemote,
-      St.addPair, sortDesc, insertDesc, connect, checkCandidates, performCheck, updatePair, react, decodeMi, handleRequest,
+      St.addPair, sortDesc, insertDesc, connect, checkCandidates, performCheck, updatePair, react, prescan, decodeWalk, miCheck, handleRequest,
       handleResponse, completion, findPair, St.connected, h1, h2]
 
 set_option linter.unusedSimpArgs false in
@@ -179,7 +234,7 @@ theorem honest_pair_carries_datagrams (aControlling : Bool) (component addrA add
   have h2 : (addrB == addrA) = false := by simp [Ne.symm hne]
   cases aControlling <;>
     simp [honestNet, Net.deliver, Net.deliverRound, Net.opA, Net.opB, Net.emitA, Net.emitB, route, wire, run, step, init, addRemote,
-      St.addPair, sortDesc, insertDesc, connect, checkCandidates, performCheck, updatePair, react, decodeMi, handleRequest,
+      St.addPair, sortDesc, insertDesc, connect, checkCandidates, performCheck, updatePair, react, prescan, decodeWalk, miCheck, handleRequest,
       handleResponse, completion, findPair, St.connected, sendApp, h1, h2]
 
 /-! ## Non-vacuity: concrete, non-trivial instances of the hypotheses -/
@@ -187,27 +242,34 @@ theorem honest_pair_carries_datagrams (aControlling : Bool) (component addrA add
 /-- a component in the middle of a negotiation (own check 0 in flight to peer 1, peer's request already answered) -/
 def midNegotiation : St :=
   (run (init false) [.setRemoteCreds, .addRemote 1 (localPriority 1), .connect,
-    .dgram { src := 1, kind := .stun { cls := .request, txid := 5000, mi := .validLocal, useCandidate := true, roleAttr := .controlling } }]).1
+    .dgram { src := 1, kind := .stun { cls := .request, txid := 5000, attrs := [.mi .validLocal], useCandidate := true, roleAttr := .controlling } }]).1
 
 -- the state is non-trivial, and unauthenticated datagrams exist for every kind of forgery
 example : (connView midNegotiation).1 = [(1, .inProgress, false)] := by decide
-example : ({ src := 8, kind := .stun { cls := .request, txid := 7, mi := .wrongKey, useCandidate := true } } : Datagram).unauthenticated = true := by decide
-example : ({ src := 1, kind := .stun { cls := .response, txid := 0, mi := .truncated } } : Datagram).unauthenticated = true := by decide
-example : ({ src := 1, kind := .stun { cls := .response, txid := 0, mi := .validLocal } } : Datagram).unauthenticated = true := by decide
+example : ({ src := 8, kind := .stun { cls := .request, txid := 7, attrs := [.mi .wrongKey], useCandidate := true } } : Datagram).unauthenticated = true := by decide
+example : ({ src := 1, kind := .stun { cls := .response, txid := 0, attrs := [.mi .truncated] } } : Datagram).unauthenticated = true := by decide
+example : ({ src := 1, kind := .stun { cls := .response, txid := 0, attrs := [.mi .validLocal] } } : Datagram).unauthenticated = true := by decide
 -- the very same response with the right key completes the negotiation, so "no effect" is not for lack of opportunity
-example : (react midNegotiation { src := 1, kind := .stun { cls := .response, txid := 0, mi := .validRemote } }).1.connected = true := by decide
-example : (react midNegotiation { src := 1, kind := .stun { cls := .response, txid := 0, mi := .validLocal } }).1 = midNegotiation := by decide
-example : ({ src := 8, kind := .stun { cls := .request, txid := 7, mi := .absent, useCandidate := true } } : Datagram).unauthenticated = true := by decide
+example : (react midNegotiation { src := 1, kind := .stun { cls := .response, txid := 0, attrs := [.mi .validRemote] } }).1.connected = true := by decide
+example : (react midNegotiation { src := 1, kind := .stun { cls := .response, txid := 0, attrs := [.mi .validLocal] } }).1 = midNegotiation := by decide
+example : ({ src := 8, kind := .stun { cls := .request, txid := 7, attrs := [], useCandidate := true } } : Datagram).unauthenticated = true := by decide
+-- layouts with the integrity attribute behind a FINGERPRINT (even with a correct HMAC), swallowed, or doubled
+example : ({ src := 8, kind := .stun { cls := .request, txid := 7, attrs := [.other, .fingerprint true, .mi .validLocal] } } : Datagram).unauthenticated = true := by decide
+example : (react midNegotiation { src := 1, kind := .stun { cls := .response, txid := 0, attrs := [.fingerprint true, .mi .validRemote] } }).2 = [.warnNoMi] := by decide
+example : (react midNegotiation { src := 1, kind := .stun { cls := .response, txid := 0, attrs := [.mi .wrongKey, .mi .validRemote] } }).2 = [.warnBadMi] := by decide
+example : (react midNegotiation { src := 1, kind := .stun { cls := .response, txid := 0, attrs := [.other, .mi .validRemote, .mi .wrongKey, .other, .fingerprint true] } }).1.connected = true := by decide
+example : (react midNegotiation { src := 1, kind := .stun { cls := .response, txid := 0, attrs := [.overrun, .mi .validRemote] } }).2 = [.warnNoMi] := by decide
+example : decodeWalk false false [.fingerprint true, .mi .wrongKey] = .ok ∧ prescan [.fingerprint true, .mi .wrongKey] = false := by decide
 -- the honest negotiation goes through, the integrity-less request is refused with the dedicated warning
 example : (run (init false) [.setRemoteCreds, .addRemote 1 (localPriority 1), .connect,
-    .dgram { src := 1, kind := .stun { cls := .request, txid := 5000, mi := .validLocal, useCandidate := true, roleAttr := .controlling } },
-    .dgram { src := 1, kind := .stun { cls := .response, txid := 0, mi := .validRemote } }]).1.connected = true := by decide
-example : (react (init false) { src := 8, kind := .stun { cls := .request, txid := 1, mi := .absent } }).2 = [.warnNoMi] := by decide
+    .dgram { src := 1, kind := .stun { cls := .request, txid := 5000, attrs := [.mi .validLocal], useCandidate := true, roleAttr := .controlling } },
+    .dgram { src := 1, kind := .stun { cls := .response, txid := 0, attrs := [.mi .validRemote] } }]).1.connected = true := by decide
+example : (react (init false) { src := 8, kind := .stun { cls := .request, txid := 1, attrs := [] } }).2 = [.warnNoMi] := by decide
 -- a history mixing honest and unauthenticated operations, for `forged_traffic_erasable`
-example : ([Op.setRemoteCreds, .dgram { src := 8, kind := .stun { cls := .request, txid := 1, mi := .absent } }, .connect].filter
+example : ([Op.setRemoteCreds, .dgram { src := 8, kind := .stun { cls := .request, txid := 1, attrs := [] } }, .connect].filter
     fun o => !o.unauthenticated) = [.setRemoteCreds, .connect] := by decide
 -- role conflict hypothesis is met by the honest request of a same-role agent
-example : handleRequest (init true) 1 { cls := .request, txid := 1, mi := .validLocal, useCandidate := true, roleAttr := .controlling }
+example : handleRequest (init true) 1 { cls := .request, txid := 1, attrs := [.mi .validLocal], useCandidate := true, roleAttr := .controlling }
     = (init true, [.roleConflict]) := by decide
 -- the honest network really exchanges four datagrams
 example : ((honestNet true 1 1 2).toA.length, (honestNet true 1 1 2).toB.length) = (1, 1) := by decide
